@@ -61,6 +61,13 @@ class ZeroInt:
         return "0 (defaultdict default)"
 
 
+class SnapIds:
+    """The sorted list of snapshot ids (only its extremes are modelled)."""
+
+    def __repr__(self):
+        return "self.temporal_snapshots_ids()"
+
+
 class Snapshots:
     def __repr__(self):
         return "self.snapshots"
@@ -106,7 +113,14 @@ class GraphWorld:
         self.first = None
         self.new_dicts = []
         self.swapped = False
-        if cfg.get("exists"):
+        if cfg.get("exists") and cfg.get("intervals"):
+            # query-side worlds: a fully explicit canonical timeline [a1,b1], [a2,b2], ...
+            ivs = [ListObj([Int("a%d" % i), Int("b%d" % i)], persistent=True, tag="interval:%d" % i)
+                   for i in range(1, cfg["intervals"] + 1)]
+            self.first, self.last = ivs[0], ivs[-1]
+            self.timeline = ListObj(ivs, persistent=True, tag="timeline")
+            self.datadict = DictObj({Const("t"): self.timeline}, persistent=True, tag="datadict")
+        elif cfg.get("exists"):
             a, b = Int("a"), Int("b")
             self.last = ListObj([a, b], persistent=True, tag="interval:last")
             items = [self.last]
@@ -526,6 +540,12 @@ class GraphWorld:
         return None
 
     def call_minmax(self, ip, name, args, node):
+        if len(args) == 1 and isinstance(args[0], SnapIds):
+            # the largest / smallest snapshot id of the graph: symbols M / m of the order type
+            sym = "M" if name == "max" else "m"
+            if not self.ot.has(sym):
+                raise Unsupported(node, "%s of the snapshot ids is not modelled in this world" % name)
+            return Int(sym)
         return None
 
     def call_builtin(self, ip, name, args, kwargs, node):
@@ -550,6 +570,8 @@ class GraphWorld:
                 if not self.node_exists(args[0].role):
                     return FALSE
                 return Const(self.pair_exists(store, args[0].role, args[1].role))
+            if name == "temporal_snapshots_ids" and not args:
+                return SnapIds()
             if name in self.methods and ip.depth < ip.max_depth:
                 fn = self.methods[name]
                 env = bind_args(fn, [SelfV()] + list(args), kwargs, ip, node)
